@@ -706,3 +706,77 @@ Definition in_place (o : op) (st : sess) : Prop :=
   | OReplace i ci => forall nc, nth_error (s_schema st) (idx_of i (s_schema st)) = Some nc -> fst nc = ci_name ci
   | _ => False
   end.
+
+(* ====================================================================================
+   Round 4: FlatColumn(name=..., type=<name>, length=?, precision=?, scale=?, element_type=?)
+   - the constructor's own keyword arguments next to the type name (orso/schema.py 153-206).
+   Every keyword may be omitted, passed as None, or passed with a value.  __init__ first stores
+   what was passed (or the dataclass default None), resolves a non-OrsoTypes element_type with
+   from_name(...)[0], resolves the type name, and then copies each parameter parsed from the
+   name onto the column WHERE THE ATTRIBUTE IS NONE (only if the resolved type is an OrsoTypes
+   member); then the DECIMAL defaults.
+   ==================================================================================== *)
+Inductive kwN := KOmit | KNone | KVal (n : N).
+Inductive kwE :=
+| EOmit | ENone
+| EMember (m : str)         (* element_type=OrsoTypes.<m> *)
+| EName (ci : col_in).      (* element_type="<type name>": from_name(...)[0]; the column name of ci is unused *)
+Record kwargs := mkKw { k_len : kwN; k_prec : kwN; k_scale : kwN; k_elt : kwE }.
+Definition kw_omitted : kwargs := mkKw KOmit KOmit KOmit EOmit.
+
+Definition kwN_value (k : kwN) : option N := match k with KVal n => Some n | _ => None end.
+
+(* the element type the caller passed, resolved.  (A name that resolves to the integer 0 -
+   VARIANT, MISSING, "0" - would leave element_type = 0; the description record cannot say
+   that, the harness does not send such cases to Coq.) *)
+Definition elt_resolve (k : kwE) : result (option str) :=
+  match k with
+  | EOmit | ENone => Ok None
+  | EMember m => Ok (Some m)
+  | EName ci => match ci_resolve ci with
+                | Raise e => Raise e
+                | Ok d => match d_ty d with TMember m => Ok (Some m) | _ => Ok None end
+                end
+  end.
+
+Definition fill (own parsed : option N) (copy : bool) : option N :=
+  match own with Some v => Some v | None => if copy then parsed else None end.
+
+(* what the column carries: the caller's own value where one was passed, else (for an OrsoTypes
+   type) the parameter parsed from the name; then the DECIMAL defaults *)
+Definition column_kw (kw : kwargs) (e0 : option str) (d : descr) : descr :=
+  let copy := match d_ty d with TMember _ => true | _ => false end in
+  let l := fill (kwN_value (k_len kw)) (d_len d) copy in
+  let p := fill (kwN_value (k_prec kw)) (d_prec d) copy in
+  let s := fill (kwN_value (k_scale kw)) (d_scale d) copy in
+  let e := match e0 with Some m => Some m | None => if copy then d_elt d else None end in
+  match d_ty d with
+  | TMember m =>
+      if str_eqb m ty_decimal then
+        let p' := match p with Some p => p | None => default_prec end in
+        let s' := match s with Some s => s | None => 3 * p' / 4 end in
+        mkD (TMember m) l (Some p') (Some s') e
+      else mkD (TMember m) l p s e
+  | t => mkD t l p s e
+  end.
+
+(* FlatColumn(type=s, **kw), DataFrame.description of the one-column frame, from_name(type code) *)
+Definition decl_model (ci : col_in) (kw : kwargs) : colobs :=
+  match elt_resolve (k_elt kw) with
+  | Raise e => ColRaise e
+  | Ok e0 =>
+      match ci_resolve ci with
+      | Raise e => ColRaise e
+      | Ok d => let c := column_kw kw e0 d in
+                ColOk c (type_code c) (desc_prec c) (desc_scale c) (from_name (type_code c))
+      end
+  end.
+
+(* no keyword carries a value: each is omitted or an explicit None *)
+Definition unspecified (kw : kwargs) : bool :=
+  onone (kwN_value (k_len kw)) && onone (kwN_value (k_prec kw)) && onone (kwN_value (k_scale kw))
+  && match k_elt kw with EOmit | ENone => true | _ => false end.
+
+Definition decl_case := (col_in * kwargs * colobs)%type.
+Definition c06_decl_check (c : decl_case) : bool := let '(ci, kw, obs) := c in col_eqb (decl_model ci kw) obs.
+Definition c06_decl_show (c : decl_case) := let '(ci, kw, obs) := c in decl_model ci kw.
